@@ -1124,6 +1124,11 @@ class PyCdlib:
                         # each one gets an Inode of its own.
                         if len_to_use > 0 and extent_to_use in extent_to_inode:
                             ino = extent_to_inode[extent_to_use]
+                            if all(isinstance(link, eltorito.EltoritoEntry) for link, pvd_unused in ino.linked_records):
+                                # This Inode was created for an El Torito
+                                # entry, which only knows the length in
+                                # sectors; the record knows it exactly.
+                                ino.data_length = len_to_use
                         else:
                             ino = inode.Inode()
                             ino.parse(extent_to_use, len_to_use, cdfp,
@@ -2160,6 +2165,8 @@ class PyCdlib:
                         else:
                             if abs_file_data_extent > 0 and abs_file_data_extent in extent_to_inode:
                                 ino = extent_to_inode[abs_file_data_extent]
+                                if all(isinstance(link, eltorito.EltoritoEntry) for link, pvd_unused in ino.linked_records):
+                                    ino.data_length = next_entry.get_data_length()
                             else:
                                 ino = inode.Inode()
                                 ino.parse(abs_file_data_extent,
